@@ -47,6 +47,7 @@ ASSUMPTIONS = [
     "EventLoopScheduler.dispose() and periodic scheduling are covered by C31/C35, not here",
 ]
 
+TIMEOUT = {"quick": 240, "thorough": 3600}  # runner: wall-clock cap per shard
 SKS = ("timeout", "newthread", "pool1", "pool2", "eventloop")
 number, now_us = schedrun.number, schedrun.now_us
 
@@ -76,6 +77,7 @@ class World:
         self.rec = []  # (kind, sid, tid, clock_us)
         self.disp = {}
         self.sched = make_scheduler(case["sk"])
+        schedrun.audit(self.sched)
 
     def _ev(self, kind, sid):
         tid = det.current_tid()
@@ -231,7 +233,7 @@ def run_det(case):
 
 def run_imm(case):
     """ImmediateScheduler, one thread, free mode."""
-    with schedrun.quiet_rx_log(), det.patched():
+    with schedrun.quiet_rx_log(), schedrun.patched(), schedrun.watchdog():
         w = World({"sk": "immediate", "threads": case["threads"]})
         w.run_ops(case["threads"][0], w.ids[0], w.sched)
     rec, meta = w.rec, w.meta
